@@ -13,6 +13,52 @@ use std::collections::BTreeSet;
 
 type DynSrc = Box<dyn Source + Send + Sync>;
 
+/// A hand-written `DirLoadable` that also overrides `sub_directories`: it does not descend
+/// into directories whose name has an even number of bytes.
+pub struct Picky;
+
+impl Compound for Picky {
+    fn load(cache: assets_manager::AnyCache, id: &assets_manager::SharedString) -> Result<Self, assets_manager::BoxedError> {
+        cache.raw_source().read(id, "a")?;
+        Ok(Picky)
+    }
+}
+
+fn picky_descends(dir_id: &str) -> bool {
+    dir_id.rsplit('.').next().unwrap_or("").len() % 2 == 1
+}
+
+impl DirLoadable for Picky {
+    fn select_ids(cache: assets_manager::AnyCache, id: &assets_manager::SharedString) -> std::io::Result<Vec<assets_manager::SharedString>> {
+        let mut ids = Vec::new();
+        cache.raw_source().read_dir(id, &mut |entry| {
+            if let assets_manager::source::DirEntry::File(id, "a") = entry {
+                ids.push(id.into());
+            }
+        })?;
+        Ok(ids)
+    }
+
+    fn sub_directories(cache: assets_manager::AnyCache, id: &assets_manager::SharedString, mut f: impl FnMut(&str)) -> std::io::Result<()> {
+        cache.raw_source().read_dir(id, &mut |entry| {
+            if let assets_manager::source::DirEntry::Directory(id) = entry {
+                if picky_descends(id) {
+                    f(id);
+                }
+            }
+        })
+    }
+}
+
+fn picky_rec_ids(truth: &Truth, dir: &str, out: &mut Vec<String>) {
+    out.extend(truth.ids_in(dir, &["a"]));
+    for c in truth.dirs.iter().filter(|c| !c.is_empty() && Truth::parent(c) == Some(dir)) {
+        if picky_descends(c) {
+            picky_rec_ids(truth, c, out);
+        }
+    }
+}
+
 fn form_name(kind: &str, dir_members: bool) -> String {
     if kind == "tar" || kind == "zip" {
         format!("{kind}:{}", if dir_members { "with-dir-members" } else { "no-dir-members" })
@@ -175,6 +221,45 @@ pub fn check_dirs(rep: &mut Report, prop: &str, src: DynSrc, truth: &Truth, kind
     if !cfg!(miri) {
         let local = LocalAssetCache::with_source(cache.raw_source());
         probes += check_elem::<std::sync::Arc<Leaf<1, 0, true>>>(rep, prop, &cache, &local, truth, Elem::ArcLeafA.exts(), "Arc<Leaf[a]>", &form, scen);
+    }
+    // ---- a type that chooses its sub-directories itself, plain and wrapped in Arc
+    for d in truth.dirs.iter().take(if cfg!(miri) { 2 } else { usize::MAX }) {
+        probes += 1;
+        let mut want = vec![];
+        picky_rec_ids(truth, d, &mut want);
+        want.sort();
+        let mut results = vec![];
+        for arc in [false, true] {
+            let r = if arc {
+                cache.load_rec_dir::<std::sync::Arc<Picky>>(d).map(|h| h.read().ids().map(|s| s.to_string()).collect::<Vec<_>>())
+            } else {
+                cache.load_rec_dir::<Picky>(d).map(|h| h.read().ids().map(|s| s.to_string()).collect::<Vec<_>>())
+            };
+            match r {
+                Ok(mut got) => {
+                    got.sort();
+                    if truth.lenient {
+                        got.retain(|g| want.contains(g));
+                    }
+                    results.push(got);
+                }
+                Err(e) => {
+                    rep.violation("existing-directory-fails", &format!("{prop}/{form}:existing-directory-fails"),
+                        json!({"dir": d, "recursive": true, "type": if arc { "Arc<Picky>" } else { "Picky" }, "error": format!("{e:?}")}), scen.clone());
+                }
+            }
+        }
+        for (k, got) in results.iter().enumerate() {
+            if *got != want {
+                rep.violation(
+                    "own-sub-directories",
+                    &format!("{prop}/{form}:recursive-ids-wrong:type-with-own-sub-directories{}", if k == 1 { ":arc" } else { "" }),
+                    json!({"dir": d, "got": got, "want": want, "rule": "sub-directories whose name has an even number of bytes are not entered"}),
+                    scen.clone(),
+                );
+            }
+        }
+        rep.count("own_sub_directories_probes", 1);
     }
     // ---- an unreadable sub-directory is skipped without hiding its siblings
     let subdirs: Vec<String> = truth.dirs.iter().filter(|d| !d.is_empty()).cloned().collect();
